@@ -3,7 +3,9 @@ simulator, one fresh 'process lifetime' per operation (DESIGN 4.3).  An engine
 run is a history with a single `run` operation."""
 import gc
 import hashlib
+import os
 import random
+import time as _time
 
 from model import ref
 from model.build import Runtime, build
@@ -179,6 +181,7 @@ class History:
         self.desc = desc
         self.world = desc["world"]
         shims.reset_node_table()
+        self.epoch = float(desc.get("epoch", _EPOCH))
         self.disk = Disk()
         self.records = []
         self.src_version = {}
@@ -200,7 +203,7 @@ class History:
     def update_source(self, name):
         v = self.src_version[name] = self.src_version.get(name, 0) + 1
         self.disk.now += 1.0
-        self.disk.put(name, Val("src:" + name, str(v)), sched_epoch() + self.disk.now)
+        self.disk.put(name, Val("src:" + name, str(v)), self.epoch + self.disk.now)
 
     def source_values(self):
         return {name: self.disk.value(name) for name in self.pure_sources() if self.disk.mtime(name) is not None}
@@ -213,9 +216,27 @@ def sched_epoch():
     return _EPOCH
 
 
-def run_op(hist, op, idx, *, tape=None, uberjob_kwargs=None, client_wrap=None, sim_hook=None, built=None,
-           runner=None):
-    """Execute one `run` operation under the simulator."""
+def run_op(hist, op, idx, **kw):
+    """Execute one `run` operation under the simulator (process TZ set for
+    the whole operation when the configuration names one)."""
+    tz = op.get("cfg", {}).get("tz")
+    if not tz:
+        return _run_op(hist, op, idx, **kw)
+    old_tz = os.environ.get("TZ")
+    os.environ["TZ"] = tz
+    _time.tzset()
+    try:
+        return _run_op(hist, op, idx, **kw)
+    finally:
+        if old_tz is None:
+            os.environ.pop("TZ", None)
+        else:
+            os.environ["TZ"] = old_tz
+        _time.tzset()
+
+
+def _run_op(hist, op, idx, *, tape=None, uberjob_kwargs=None, client_wrap=None, sim_hook=None, built=None,
+            runner=None):
     import uberjob
 
     desc = hist.desc
@@ -235,7 +256,7 @@ def run_op(hist, op, idx, *, tape=None, uberjob_kwargs=None, client_wrap=None, s
         seed,
         strategy=strategy,
         max_steps=desc.get("max_steps", 400_000),
-        epoch=_EPOCH,
+        epoch=hist.epoch,
     )
     sim.now = hist.disk.now
     rt = Runtime(sim, world, hist.disk, built, faults=faults, cfg=cfg)
@@ -352,7 +373,7 @@ def apply_op(hist, op, idx, **kw):
         # fresh_time := an instant later than every existing modified time and
         # earlier than every later write (pairwise distinct instants)
         hist.disk.now += 1.0
-        hist.fresh = max(_EPOCH + hist.disk.now, hist.disk.last) + 0.5
+        hist.fresh = max(hist.epoch + hist.disk.now, hist.disk.last) + 0.5
         hist.disk.last = hist.fresh + 0.25
     else:
         raise ValueError(k)
